@@ -290,6 +290,9 @@ func checkC08(p *core.Program, r *core.Report) {
 		const R5 = "C08.R5 no-shared-map-with-report-goroutine"
 		r.Rule(R5, "the map handed to the asynchronous mDNS report is a copy: iterating the live map in the report goroutine while the resolver callback writes it is a fatal, unrecoverable runtime error any host on the link can trigger with a burst of records (rule shared with C17.R3)")
 		importRules(p, r, "C17", map[string]string{"C17.R3 snapshot-not-alias": R5}, nil)
+		const R6 = "C08.R6 no-lock-left-held"
+		r.Rule(R6, "no repo function returns on some path with a mutex it acquired still locked (lock wrappers and deferred unlocks excepted): the next acquirer - e.g. the receive loop stopping the handshake timer - blocks for ever")
+		checkLockLeaks(p, r, R6, p.RepoFuncs())
 	}()
 	ensureCallSites(p)
 	const R1 = "C08.R1 panic-obligations"
